@@ -8,7 +8,7 @@ lookup, call graph, reachability.  Nothing here executes the program.
 import json, re, sys
 from collections import defaultdict
 
-_GEN = re.compile(r"::<[^<>]*(?:<[^<>]*(?:<[^<>]*>[^<>]*)*>[^<>]*)*>")
+_GEN = re.compile(r"::<(?!impl )[^<>]*(?:<[^<>]*(?:<[^<>]*>[^<>]*)*>[^<>]*)*>")
 
 
 def norm(path):
